@@ -1381,6 +1381,43 @@ def build_syn_font(spec):
     return buf.getvalue()
 
 
+def pad_subrs(data, nlocal, nglobal):
+    """The same font with its local / global subroutine INDEX padded to nlocal / nglobal entries by
+    never-called one-operator subroutines, every call operand re-biased for the new counts (the
+    bias is 107 below 1240 subroutines, 1131 below 33900, 32768 from there on)."""
+    from fontTools.ttLib import TTFont as _TTFont
+
+    def bias(n):
+        return 107 if n < 1240 else 1131 if n < 33900 else 32768
+
+    font = _TTFont(io.BytesIO(data))
+    cff = font["CFF "].cff
+    top = cff.topDictIndex[0]
+    priv = top.Private
+    lsubrs, gsubrs = priv.Subrs, cff.GlobalSubrs
+    nl, ng = max(nlocal, len(lsubrs)), max(nglobal, len(gsubrs))
+    dl, dg = bias(len(lsubrs)) - bias(nl), bias(len(gsubrs)) - bias(ng)
+    progs = [top.CharStrings[g] for g in font.getGlyphOrder()] + list(lsubrs) + list(gsubrs)
+    for cs in progs:
+        # a subroutine taken from its INDEX does not know the global subroutines it may call
+        cs.private, cs.globalSubrs = priv, gsubrs
+        cs.decompile()
+    for cs in progs:
+        pr = cs.program
+        for i, tok in enumerate(pr):
+            if tok == "callsubr":
+                pr[i - 1] += dl
+            elif tok == "callgsubr":
+                pr[i - 1] += dg
+    while len(lsubrs) < nl:
+        lsubrs.append(T2CharString(program=["return"], private=priv, globalSubrs=gsubrs))
+    while len(gsubrs) < ng:
+        gsubrs.append(T2CharString(program=["return"], private=priv, globalSubrs=gsubrs))
+    buf = io.BytesIO()
+    font.save(buf)
+    return buf.getvalue()
+
+
 SYN_TRANSFORMS = ("desubroutinize", "remove_hints", "desubroutinize+remove_hints", "remove_unused_subroutines",
                   "subset-half", "subset-other-half", "subset-half-desubroutinize-no-hinting", "cff-to-cff2",
                   "cff-to-cff2-to-cff-glyphs-loaded")
@@ -1392,12 +1429,12 @@ class SyntheticFonts(FontTransforms):
             "(none, inline stems, stems in a local / global subroutine, operands of an implied vstem left by a subroutine, cntrmask, width operand "
             "inside the subroutine, a subroutine that declares stems and goes on drawing) x 7 path set-ups (inline, local, global, nested l->l, l->g, g->g, hintmask inside a subroutine) x endchar inline / "
             "inside a subroutine; all ordered glyph pairs in thorough, first glyph over all 63 kinds x second over 9 kinds in quick; x 9 transforms "
-            "(7 in quick); "
+            "(7 in quick); plus the 7 path set-ups x 2 (thorough 9) hint set-ups with the local / global / both subroutine INDEX padded to 1300 (thorough also 34000) entries by never-called subroutines (bias 107 -> 1131 -> 32768; pruning changes the bias) x 4 transforms; "
             "oracle as font-transforms; distinct = each (font, transform)")
     required_witnesses = ("subroutine calls inlined", "nested subroutine inlined", "stem hints removed", "hintmask removed", "cntrmask removed",
                           "unused subroutines dropped", "subroutine calls renumbered", "width operand dropped for CFF2",
                           "width operand re-encoded (CFF2->CFF)", "subset dropped glyphs", "global and local subroutines in one font",
-                          "second glyph re-uses a hint subroutine of the first")
+                          "second glyph re-uses a hint subroutine of the first", "subroutine INDEX padded across a bias threshold")
     chunk = 7  # about the number of transforms: a shard builds its font once or twice
 
     def setup(self, tier, seed):
@@ -1425,15 +1462,35 @@ class SyntheticFonts(FontTransforms):
                     if tier == "quick" and t in ("subset-other-half", "cff-to-cff2"):
                         continue  # the round trip covers cff-to-cff2; the other half is the mirror case
                     yield [[[h1, p1, v1], [h2, p2, v2]], "syn", t]
+        # subroutine INDEXes padded across the bias thresholds (1240; thorough also 33900): pruning
+        # the unused entries changes the bias, every surviving call must be re-biased - nested ones too
+        pads = [("L1300", 1300, 0), ("G1300", 0, 1300), ("L1300G1300", 1300, 1300)]
+        if tier != "quick":
+            pads += [("L34000", 34000, 0), ("G34000", 0, 34000)]
+        for pname, _nl, _ng in pads:
+            for p1 in range(len(SYN_PATHS)):
+                for h1 in ((0, 3) if tier == "quick" else range(len(SYN_HINTS))):
+                    if h1 >= len(SYN_HINTS):
+                        continue
+                    p2 = (p1 + 3) % len(SYN_PATHS)
+                    for t in ("remove_unused_subroutines", "subset-half", "desubroutinize", "remove_hints"):
+                        yield [[[h1, p1, (h1 + p1 + seed) % 4], [h1, p2, (p2 + seed) % 4]], "syn+" + pname, t]
 
     def check(self, case, rec):
         spec, _n, t = case
-        key = repr(spec)
+        key = repr(spec) + _n
         if key not in self._built:
             self._built.clear()
-            self._built[key] = build_syn_font(spec)
+            data = build_syn_font(spec)
+            if "+" in _n:
+                pname = _n.split("+", 1)[1]
+                nl = int(pname.split("L")[1].split("G")[0]) if "L" in pname else 0
+                ng = int(pname.split("G")[1]) if "G" in pname else 0
+                data = pad_subrs(data, nl, ng)
+                rec.witness("subroutine INDEX padded across a bias threshold")
+            self._built[key] = data
         data = self._built[key]
-        name = "generated font " + "+".join("%s/%s/v%d" % (SYN_HINTS[h][0], SYN_PATHS[p][0], v) for h, p, v in spec)
+        name = "generated font " + "+".join("%s/%s/v%d" % (SYN_HINTS[h][0], SYN_PATHS[p][0], v) for h, p, v in spec) + (" " + _n if "+" in _n else "")
         self.fonts = [(name, "CFF ", data, -1)]
         if SYN_HINTS[spec[0][0]][0] == SYN_HINTS[spec[1][0]][0] and "subr" in SYN_HINTS[spec[0][0]][0]:
             rec.witness("second glyph re-uses a hint subroutine of the first")
